@@ -186,6 +186,7 @@ def run(ctx):
     alias_insensitive_drop(ctx, "R10-e")
     rewritten_run_is_contiguous(ctx, "R10-f")
     flatten_never_imports_the_prefix(ctx, "R10-g")
+    flatten_callers_keep_attributes(ctx, "R10-h")
     C = r.rule("R10-c", "group_imports: every path through one loop iteration pushes the tree into exactly one of the groups")
     gi = p.fn("rustfmt_nightly::reorder::group_imports")
     if gi is None:
@@ -417,3 +418,68 @@ def flatten_never_imports_the_prefix(ctx, rid):
                         "a flattened element with an empty path (from `c::{}`) yields a tree that is just the prefix: an import of "
                         "the prefix module that the source never had", ["%s:%d" % (f.file, s[3])])
     r.floor(rid, n, 1, "UseTree constructions in flatten")
+
+
+def flatten_callers_keep_attributes(ctx, rid):
+    """R10-h: a declaration with attributes is never split into attribute-less paths"""
+    from common import bool_branches, edge_dominates, local_origin, operand_origin
+    p, r = ctx.p, ctx.r
+    r.rule(rid, "UseTree::flatten copies the declaration's attributes onto the paths it produces only for ImportGranularity::Item; "
+                "for every other granularity the paths come out without them.  Every call of flatten from outside itself therefore "
+                "either passes the constant `Item` (directly, or as the parameter of a function all of whose callers pass it), or is "
+                "reached only on the false edge of `tree.attrs.is_some()`: `#[cfg(test)] use foo::{testing, Baz};` split and merged "
+                "with its neighbours becomes an unconditional import")
+    n = 0
+
+    def const_item(f, op):
+        o = operand_origin(f, op)
+        if o[0] == "const" and isinstance(o[1], dict) and o[1].get("variant") == "Item":
+            return True
+        if op[0] != "k" and not op[1][1]:
+            d = f.single_def(op[1][0])
+            if d and d[1] == "assign":
+                rv = d[2][2]
+                if rv[0] == "agg" and isinstance(rv[1], list) and rv[1][0] == "adt" and rv[1][1].endswith("ImportGranularity") \
+                        and rv[1][2] == "Item":
+                    return True
+                if rv[0] == "use":
+                    return const_item(f, rv[1])
+        return False
+
+    for f in p.by_crate["rustfmt_nightly"]:
+        if short(f.id).split("::{closure")[0].endswith("UseTree::flatten"):
+            continue
+        for c in f.calls():
+            if not c.name.endswith("imports::UseTree::flatten"):
+                continue
+            n += 1
+            ok_const = len(c.args) > 1 and const_item(f, c.args[1])
+            if not ok_const and f.kind == "Closure":
+                parent = p.fns.get(f.id.split("::{closure")[0])
+                if parent is not None:
+                    gi = [i for i in range(1, parent.argc + 1) if "ImportGranularity" in parent.locals[i]]
+                    sites = [(g, d) for g in p.by_crate["rustfmt_nightly"] for d in g.calls() if d.resolved == parent.id or d.name == parent.id]
+                    if gi and sites and all(len(d.args) >= gi[0] and const_item(g, d.args[gi[0] - 1]) for g, d in sites):
+                        ok_const = True
+            guarded = False
+            for d in f.calls():
+                last = d.name.rsplit("::", 1)[-1]
+                if last not in ("is_some", "is_none") or not d.args or d.args[0][0] == "k" or d.dest[1]:
+                    continue
+                dd = f.derived_from(d.args[0][1][0])
+                direct = [e for e in d.args[0][1][1] if isinstance(e, list) and e[0] == "f"]
+                if not (any(str(x[2]) == "attrs" and (x[0] or "").endswith("imports::UseTree") for x in dd["fields"])
+                        or any(str(e[4]) == "attrs" for e in direct)):
+                    continue
+                for sw, tt, ff in bool_branches(f, d.dest[0]):
+                    tgt = ff if last == "is_some" else tt
+                    if tgt is not None and edge_dominates(f, (sw, tgt), c.bb):
+                        guarded = True
+            ok = ok_const or guarded
+            r.instance(rid, "%s calls UseTree::flatten" % short(f.id).split("::{closure")[0], "ok" if ok else "violation", c.loc(),
+                       "granularity is the constant Item" if ok_const else "guarded by attrs.is_none()" if guarded else "unguarded")
+            if not ok:
+                r.violation(rid, "%s flattens use trees that may carry attributes" % short(f.id).split("::{closure")[0],
+                            "the call is not confined to trees without attributes and the granularity is not the constant Item: the "
+                            "attributes of a split declaration are dropped", [c.loc()])
+    r.floor(rid, n, 2, "external callers of UseTree::flatten")
